@@ -216,22 +216,26 @@ class World:
         self.extra_tasks.append(t)
         return t
 
-    def drain(self, rounds=30):
-        """Release every gate (workers, slow callbacks) and settle, until nothing moves."""
+    def drain(self, rounds=200):
+        """Finish all work: release one gate at a time (blocked slow callbacks first, in creation order,
+        then workers in start order), settling after each, until nothing is left to release."""
+        self.settle()
         for _ in range(rounds):
             moved = False
-            for r in self.W:
-                if not r["gate"].done():
-                    r["gate"].set_result(None)
-                    moved = True
             for s in self.slow:
                 if not s[2].done():
                     s[2].set_result(None)
                     moved = True
-            if self.settle():
-                moved = True
+                    break
+            if not moved:
+                for r in self.W:
+                    if not r["gate"].done():
+                        r["gate"].set_result(None)
+                        moved = True
+                        break
             if not moved:
                 return
+            self.settle()
         raise HarnessError("drain did not converge")
 
     # ------------------------------------------------------------------ embedded ops
